@@ -247,6 +247,25 @@ def run(case, out):
                     g["freq"] = m.value_as("frequency")
                 got.append(g)
                 m.next()
+            # the same list object read a second time from the start, and its other ways of listing the documents
+            if hasattr(m, "reset"):
+                try:
+                    m.reset()
+                    again = []
+                    while m.is_active():
+                        again.append(m.id())
+                        m.next()
+                except NotImplementedError:
+                    again = None
+                if again is not None and again != [g["doc"] for g in got]:
+                    out.fail("c10.posting_docs_after_reset", {"term": text[:20], "first_read": [g["doc"] for g in got][:40],
+                                                              "after_reset": again[:40], "codec": ck})
+                    return
+            ids2 = list(reader.postings("f", bt).all_ids())
+            if ids2 != [g["doc"] for g in got]:
+                out.fail("c10.posting_all_ids", {"term": text[:20], "stepping": [g["doc"] for g in got][:40], "all_ids": ids2[:40],
+                                                 "codec": ck})
+                return
             if [g["doc"] for g in got] != [e["doc"] for e in live]:
                 out.fail("c10.posting_docs", {"term": text, "got": [g["doc"] for g in got], "expected": [e["doc"] for e in live],
                                               "codec": ck})
